@@ -18,6 +18,18 @@ Definition finish (A Cc Cs : list (list Qc)) (lam : Qc) (use_C : bool) (y alpha 
        sx_bool (residual_ok_floor (left_matrix A lam use_C Cs) r alpha tol fl);
        (if (length Cs <=? 30)%nat then sx_bool (psd_check Cs) else Zv 2) ].
 
+Definition get_LLLQc (s : sx) : option (list (list (list Qc))) :=
+  match s with Lv l => opt_all (map get_LLQc l) | _ => None end.
+
+(* Opticom: predictions of every component grid at the validation points, option 3 completely (validation errors, raw
+   coefficients, degenerate branch, normalisation), option 2 through the certificate of its least-squares solve
+   (raw2 = s * returned coefficients, empty = not requested)
+   -> (coefficients_option3  validation_errors  predictions  option2_certified(0/1, 2 = not requested)  normalised raw2) *)
+Definition opticom_out (preds : list (list Qc)) (coefs vy raw2 : list Qc) (tol : Qc) : sx :=
+  Lv [ of_LQc (opticom3 preds coefs vy); of_LQc (map (mse vy) preds); of_LLQc preds;
+       match raw2 with [] => Zv 2 | _ => sx_bool (opticom2_certified preds vy raw2 tol) end;
+       of_LQc (opticom_finish (Some raw2) coefs) ].
+
 Definition entry_C20 (sub : Z) (a : sx) : sx :=
   match sub, a with
   (* uniform: (levelvec lambda use_C data targets alpha tol) *)
@@ -41,5 +53,15 @@ Definition entry_C20 (sub : Z) (a : sx) : sx :=
   | 6, Lv [st; data] => ret (do st <- get_LLQc st; do data <- get_LLQc data; Some (of_LLQc (design_nonuniform st data)))
   (* verified positive-semi-definiteness checker on a rational matrix *)
   | 7, Lv [g] => ret (do g <- get_LLQc g; Some (sx_bool (psd_check g)))
+  (* Opticom on uniform component grids: (levelvectors surpluses coefficients validation_points validation_targets raw2 tol) *)
+  | 8, Lv [lvs; als; cs; vd; vy; raw2; tol] => ret (
+      do lvs <- get_LLZ lvs; do als <- get_LLQc als; do cs <- get_LQc cs; do vd <- get_LLQc vd; do vy <- get_LQc vy;
+      do raw2 <- get_LQc raw2; do tol <- get_Qc tol;
+      Some (opticom_out (map2 (fun lv al => predict_uniform lv al vd) lvs als) cs vy raw2 tol))
+  (* Opticom on dimension-wise component grids: stripes instead of level vectors *)
+  | 9, Lv [sts; als; cs; vd; vy; raw2; tol] => ret (
+      do sts <- get_LLLQc sts; do als <- get_LLQc als; do cs <- get_LQc cs; do vd <- get_LLQc vd; do vy <- get_LQc vy;
+      do raw2 <- get_LQc raw2; do tol <- get_Qc tol;
+      Some (opticom_out (map2 (fun st al => predict_nonuniform st al vd) sts als) cs vy raw2 tol))
   | _, _ => sx_err 0
   end.
